@@ -8,6 +8,7 @@ import (
 	"strings"
 	"testing"
 	"testing/synctest"
+	"time"
 
 	"github.com/formancehq/ledger/internal/engine/command"
 	"github.com/formancehq/ledger/internal/verifhook"
@@ -39,12 +40,20 @@ type LockerIn struct {
 	Choices  []int        `json:"choices,omitempty"`
 	TailSeed uint64       `json:"tailSeed,omitempty"` // see Input.TailSeed
 	TailPct  int          `json:"tailPct,omitempty"`
-	PCTSeed  uint64       `json:"pctSeed,omitempty"` // see Input.PCTSeed
-	PCTDepth int          `json:"pctDepth,omitempty"`
-	PCTSpan  int          `json:"pctSpan,omitempty"`
+	// Ticks: the clock moves forward by Us microseconds when the scheduler reaches step Step (a
+	// lock manager may use timers: polling, time-outs)
+	Ticks    []ClockTick `json:"ticks,omitempty"`
+	PCTSeed  uint64      `json:"pctSeed,omitempty"` // see Input.PCTSeed
+	PCTDepth int         `json:"pctDepth,omitempty"`
+	PCTSpan  int         `json:"pctSpan,omitempty"`
 	// FineSites: statement-level scheduling points enabled in this run (fine-grained mode only).
 	FineSites []string `json:"fineSites,omitempty"`
 	FineHeld  bool     `json:"fineHeld,omitempty"` // see Config.FineHeld
+}
+
+type ClockTick struct {
+	Step int   `json:"step"`
+	Us   int64 `json:"us"`
 }
 
 type lockRec struct {
@@ -168,6 +177,8 @@ func (l *lockerSim) root() {
 		}
 		return true
 	}
+	ticks := append([]ClockTick(nil), l.in.Ticks...)
+	idle := 0
 	for {
 		quiesce()
 		l.sched.step++
@@ -235,9 +246,26 @@ func (l *lockerSim) root() {
 				continue
 			}
 		}
+		if len(ticks) > 0 && l.sched.step >= ticks[0].Step {
+			d := time.Duration(ticks[0].Us) * time.Microsecond
+			ticks = ticks[1:]
+			l.sched.Logf("step %d: clock +%s", l.sched.step, d)
+			l.counter["fault.clock-tick"]++
+			simSleep(d)
+			continue
+		}
 		if len(ps) == 0 {
 			if allDone() {
 				break
+			}
+			// discrete-event clock: before calling it a stall, let time pass (timers of the lock manager)
+			if idle < len(idleSteps) {
+				d := idleSteps[idle]
+				idle++
+				l.sched.Logf("step %d: idle, clock +%s", l.sched.step, d)
+				l.counter["clock.advanced-while-idle"]++
+				simSleep(d)
+				continue
 			}
 			// nothing can run any more: every remaining request is blocked inside Lock although
 			// every holder has released (holders release after a bounded number of steps)
@@ -256,6 +284,7 @@ func (l *lockerSim) root() {
 			l.violate("request-never-granted", "no holder is left, yet these requests are still waiting inside Lock: "+strings.Join(stuck, " "), feat)
 			break
 		}
+		idle = 0
 		p := l.sched.pick(ps)
 		if r := l.cur[p]; r != nil && r.invoked && !r.returned {
 			r.queueStep = l.sched.step
@@ -623,6 +652,14 @@ func GenLockerIn(t *rapid.T) *LockerIn {
 			}
 			in.Choices = append(in.Choices, c)
 		}
+	}
+	if pct(t, 30, "hasTicks") {
+		n := rapid.IntRange(1, 6).Draw(t, "nTicks")
+		for i := 0; i < n; i++ {
+			in.Ticks = append(in.Ticks, ClockTick{Step: rapid.IntRange(1, 80).Draw(t, "tickStep"),
+				Us: rapid.SampledFrom([]int64{1000, 60000, 300000, 1100000, 6000000, 31000000}).Draw(t, "tickUs")})
+		}
+		sort.SliceStable(in.Ticks, func(i, j int) bool { return in.Ticks[i].Step < in.Ticks[j].Step })
 	}
 	switch rapid.IntRange(0, 3).Draw(t, "schedStyle") {
 	case 0, 1:
